@@ -52,6 +52,7 @@ pub tracked struct World {
     pub ghost p_refs: nat,           // strong count of its Arc<CommandWaker>
     pub ghost p_woken: bool,         // its `woken` flag
     pub ghost p_pending: bool,       // that poll returned Pending
+    pub ghost host_woken: bool,      // the waker the command's host registered (AtomicWaker) has been woken
     pub ghost p_polls: nat,          // how many times Command::run_task has polled a task's future
     pub ghost aborted_tasks: Set<int>, // identities of tasks whose own abort flag (JoinHandle::abort) is set
 }
@@ -69,7 +70,7 @@ pub open spec fn cmd_part_eq(a: World, b: World) -> bool {
     a.c_spawn == b.c_spawn && a.c_ready == b.c_ready && a.c_events == b.c_events && a.c_effects == b.c_effects
     && a.c_aborted == b.c_aborted && a.finished == b.finished && a.known == b.known && a.join_notified == b.join_notified
     && a.p_refs == b.p_refs && a.p_woken == b.p_woken && a.p_pending == b.p_pending
-    && a.p_polls == b.p_polls && a.aborted_tasks == b.aborted_tasks
+    && a.p_polls == b.p_polls && a.aborted_tasks == b.aborted_tasks && a.host_woken == b.host_woken
 }
 /// what anything that runs user code may do to the core's queues: add work, append outputs
 pub open spec fn core_havoc_min(a: World, b: World) -> bool {
@@ -365,6 +366,8 @@ impl<T> Clone for Sender<T> {
 //@extract id=exec.RunTask file=crux_core/src/capability/executor.rs item="enum RunTask"
 //@end
 //@extract id=exec.TaskWaker file=crux_core/src/capability/executor.rs item="struct TaskWaker"
+//@rule X2.vis 1 s/^struct TaskWaker/pub struct TaskWaker/
+//@rule X2.vis * s/\n(\s+)(task_id|sender):/\n\1pub \2:/
 //@end
 //@extract id=exec.QueuingExecutor file=crux_core/src/capability/executor.rs item="struct QueuingExecutor"
 //@rule X2.vis 1 s/pub\(crate\) struct/pub struct/
@@ -375,6 +378,20 @@ impl From<Arc<TaskWaker>> for Waker {
     #[verifier::external_body]
     fn from(a: Arc<TaskWaker>) -> (r: Waker)
     { unimplemented!() }
+}
+
+// X7: `impl Wake for TaskWaker { fn wake_by_ref(self: &Arc<Self>) }` lifted to an inherent
+// method on the pointee (Arc deref)
+impl TaskWaker {
+//@extract id=TaskWaker::wake_by_ref file=crux_core/src/capability/executor.rs within="impl Wake for TaskWaker" item="fn wake_by_ref" props=C01
+//@expect fn wake_by_ref(self: &Arc<Self>)
+//@sig pub fn wake_by_ref(&self, Tracked(w): Tracked<&mut World>)
+//@contract
+        requires
+            self.sender.role() is Ready, // the waker was made by QueuingExecutor::run_task from its own ready_sender
+        ensures
+            *final(w) == (World { ready: old(w).ready + 1, ..*old(w) }), // [C01/TaskWaker::wake_by_ref/the-woken-task-is-queued-on-the-executors-ready-queue-exactly-once]
+//@end
 }
 
 impl QueuingExecutor {
@@ -794,12 +811,46 @@ pub mod command_m {
 
 //@extract id=cmd.CommandWaker file=crux_core/src/command/executor.rs item="struct CommandWaker"
 //@rule X2.vis * s/pub\(crate\)/pub/
+//@rule X2.vis 1 s/\n(\s+)woken:/\n\1pub woken:/
 //@end
 
     impl AtomicBool {
+        /// whether this is the `woken` flag of the waker of the poll in progress / last done
+        pub uninterp spec fn is_current_poll_flag(&self) -> bool;
         #[verifier::external_body]
         pub fn new(v: bool) -> (r: AtomicBool)
         { unimplemented!() }
+        #[verifier::external_body]
+        pub fn store(&self, Tracked(w): Tracked<&mut World>, v: bool, o: Ordering)
+            ensures
+                self.is_current_poll_flag() ==> *final(w) == (World { p_woken: v, ..*old(w) }),
+                !self.is_current_poll_flag() ==> *final(w) == *old(w),
+        { unimplemented!() }
+    }
+    impl Arc<AtomicWaker> {
+        // ASSUMED: futures AtomicWaker::wake wakes the waker the host registered (a no-op if none)
+        #[verifier::external_body]
+        pub fn wake(&self, Tracked(w): Tracked<&mut World>)
+            ensures *final(w) == (World { host_woken: true, ..*old(w) }),
+        { unimplemented!() }
+    }
+
+    // X7: `impl Wake for CommandWaker { fn wake_by_ref(self: &Arc<Self>) }` lifted to an inherent
+    // method on the pointee (Arc deref)
+    impl CommandWaker {
+//@extract id=CommandWaker::wake_by_ref file=crux_core/src/command/executor.rs within="impl Wake for CommandWaker" item="fn wake_by_ref" props=C01
+//@expect fn wake_by_ref(self: &Arc<Self>)
+//@sig pub fn wake_by_ref(&self, Tracked(w): Tracked<&mut World>)
+//@contract
+            requires
+                self.ready_queue.role() is CReady, // the waker was made by Command::run_task from the command's own ready_sender
+            ensures
+                final(w).c_ready == old(w).c_ready + 1, // [C01/CommandWaker::wake_by_ref/the-woken-task-is-queued-on-its-commands-ready-queue-exactly-once]
+                final(w).host_woken, // [C01/CommandWaker::wake_by_ref/the-commands-host-is-woken-too-no-wake-up-lost-between-layers]
+                self.woken.is_current_poll_flag() ==> final(w).p_woken, // [C01+C07/CommandWaker::wake_by_ref/the-waker-records-that-it-was-used]
+                *final(w) == (World { c_ready: final(w).c_ready, host_woken: true, p_woken: final(w).p_woken, ..*old(w) }),
+//@rule X6.world * s/\.wake\(\)/.wake(Tracked(w))/
+//@end
     }
     impl<T> Clone for Arc<T> {
         #[verifier::external_body]
